@@ -721,6 +721,7 @@ func (w *World) snapJSON() map[string]interface{} {
 			PeerDup     []int `json:"peerDup"`
 			AppIDOut    []int `json:"appIdOut"`
 			AppIDDup    []int `json:"appIdDup"`
+			StoredCtr   []int `json:"storedCtr"`
 			Meters      []struct {
 				Fseid string `json:"fseid"`
 				Qer   int    `json:"qer"`
@@ -825,7 +826,7 @@ func (w *World) snapJSON() map[string]interface{} {
 
 		out["up4"] = map[string]interface{}{"ctrOut": il(u.CtrOut), "appCellOut": il(u.AppCellOut), "sessCellOut": il(u.SessCellOut),
 			"peerOut": il(u.PeerOut), "peerDup": il(u.PeerDup), "appIdOut": il(u.AppIDOut), "appIdDup": il(u.AppIDDup),
-			"meters": meters, "peers": peers, "apps": apps}
+			"meters": meters, "peers": peers, "apps": apps, "storedCtr": il(u.StoredCtr)}
 	}
 
 	return out
